@@ -87,7 +87,10 @@ def gen_scenario(rng, prof=None):
             ops.append(f"read {rng.choice(alive)[0]}")
         elif r < 0.74 + prof["p_crash"] * 0.5 and len(nodes) > 1:
             n = rng.choice(nodes)
-            if n in crashed:
+            if n in crashed and rng.random() < 0.3:
+                # crashing a node that is already down is legal: it discards again whatever was sent to it meanwhile
+                ops.append(f"crash {n}")
+            elif n in crashed:
                 ops.append(f"recover {n}")
                 crashed.discard(n)
                 for p in procs:
@@ -172,6 +175,11 @@ def gen_crash_burst(rng):
         n = rng.choice(live)
         lines += [f"crash {n}", "steps 3"]
         down.add(n)
+        if rng.random() < 0.4:
+            # the others keep sending to the crashed node; a second crash_node discards that too
+            for p in [q for q in procs if loc[q] not in down][:2]:
+                lines.append(f"local {p} m0 =go")
+            lines += [rng.choice(["step", "steps 2"]), f"crash {n}"]
         if rng.random() < 0.6:
             down.discard(n)
             lines.append(f"recover {n}")
